@@ -265,9 +265,18 @@ fn mode_scripted(a: &Args, which: &str) {
     if a.thorough {
         lens.extend(LENS_THOROUGH.iter());
     }
-    let reps = if a.thorough { 3 } else { 1 };
     for &l in &lens {
-        for nobs in 1..=6usize {
+        // the rational model costs O(L^2 * nobs) slow exact operations: long series get fewer cases
+        let (reps, max_obs) = if !a.thorough {
+            (1, 6)
+        } else if l <= 64 {
+            (3, 6)
+        } else if l <= 128 {
+            (1, 6)
+        } else {
+            (1, 2)
+        };
+        for nobs in 1..=max_obs as usize {
             for _ in 0..reps {
                 let f = *g.pick(&[None, Some(1), Some(2), Some(3), Some(5)]);
                 let fv = f.unwrap_or(1);
